@@ -331,25 +331,24 @@ fn ty_from(t: &Type) -> Ty {
 /// text: constructor name then space separated 16-hex words; lists are `[ .. ]`; record field = sym key bool(0/1);
 /// UserSum variant = sym then `-` or key
 fn show_ty(t: &Ty) -> String {
-    let ks = |v: &Vec<u64>| v.iter().map(|k| format!("{k:016x}")).collect::<Vec<_>>().join(" ");
+    let ks = |v: &Vec<u64>| v.iter().map(|k| format!("{k:016x} ")).collect::<String>();
     match t {
         Ty::Primitive(p) => format!("Primitive {p}"),
         Ty::Array(k) => format!("Array {k:016x}"),
-        Ty::Tuple(v) => format!("Tuple [ {} ]", ks(v)),
+        Ty::Tuple(v) => format!("Tuple [ {}]", ks(v)),
         Ty::Record(v) => format!(
-            "Record [ {} ]",
-            v.iter().map(|(s, k, d)| format!("{s:016x} {k:016x} {}", *d as u8)).collect::<Vec<_>>().join(" ")
+            "Record [ {}]",
+            v.iter().map(|(s, k, d)| format!("{s:016x} {k:016x} {} ", *d as u8)).collect::<String>()
         ),
         Ty::Function(a, r) => format!("Function {a:016x} {r:016x}"),
         Ty::Ref(k) => format!("Ref {k:016x}"),
         Ty::Code(k) => format!("Code {k:016x}"),
-        Ty::Union(v) => format!("Union [ {} ]", ks(v)),
+        Ty::Union(v) => format!("Union [ {}]", ks(v)),
         Ty::UserSum(n, v) => format!(
-            "UserSum {n:016x} [ {} ]",
+            "UserSum {n:016x} [ {}]",
             v.iter()
-                .map(|(s, k)| format!("{s:016x} {}", k.map(|k| format!("{k:016x}")).unwrap_or("-".to_string())))
-                .collect::<Vec<_>>()
-                .join(" ")
+                .map(|(s, k)| format!("{s:016x} {} ", k.map(|k| format!("{k:016x}")).unwrap_or("-".to_string())))
+                .collect::<String>()
         ),
         Ty::Boxed(k) => format!("Boxed {k:016x}"),
         Ty::Intermediate => "Intermediate".to_string(),
